@@ -1967,3 +1967,491 @@ def _panic(I, a, d):
 @T.path("std::process::abort", "std::process::exit", "core::intrinsics::abort")
 def _abort(I, a, d):
     raise RustAbort("process::abort/exit")
+
+
+# ---------------------------------------------------------------------------
+# slice / Vec algorithms that a refactoring of the index code might reach for
+
+def _items_of(v):
+    v = peel(v)
+    if isinstance(v, SliceRef):
+        return v
+    if isinstance(v, VecObj):
+        return SliceRef(v.items)
+    raise Inconclusive("expected slice/Vec, got %r" % (v,))
+
+
+def key_less(I, a, b, label):
+    """a < b on ordered model values (ints, symbolic ints, byte strings, Option, tuples) -> bool via branch."""
+    a, b = peel(a), peel(b)
+    if isinstance(a, (BufObj, BytesRef)) and isinstance(b, (BufObj, BytesRef)):
+        if a.sb.is_concrete() and b.sb.is_concrete():
+            return a.sb.concrete() < b.sb.concrete()
+        raise Inconclusive("ordering of symbolic strings")
+    if isinstance(a, Adt) and isinstance(b, Adt) and a.ty == b.ty:
+        if a.variant != b.variant:
+            return a.variant < b.variant
+        for x, y in zip(a.fields, b.fields):
+            if key_less(I, x, y, label):
+                return True
+            if key_less(I, y, x, label):
+                return False
+        return False
+    if isinstance(a, Agg) and isinstance(b, Agg):
+        for x, y in zip(a.fields, b.fields):
+            if key_less(I, x, y, label):
+                return True
+            if key_less(I, y, x, label):
+                return False
+        return False
+    if isinstance(a, bool) or isinstance(b, bool):
+        return (not a) and b
+    if is_sym(a) or is_sym(b):
+        w = a.size() if is_sym(a) else b.size()
+        return I.w.branch(z3.ULT(bv(a, w), bv(b, w)), label)
+    if isinstance(a, int) and isinstance(b, int):
+        return a < b
+    raise Inconclusive("ordering of %r and %r" % (a, b))
+
+
+def _stable_sort(I, s, less):
+    items = [s.items[s.start + i] for i in range(len(s))]
+    out = []
+    for x in items:                      # insertion sort keeps equal elements in order
+        pos = len(out)
+        while pos > 0 and less(x, out[pos - 1]):
+            pos -= 1
+        out.insert(pos, x)
+    for i, x in enumerate(out):
+        s.items[s.start + i] = x
+
+
+def _ordering_less(I, f):
+    def less(x, y):
+        o = I.call_value(f, [Ref(ValLoc(x)), Ref(ValLoc(y))])
+        return isinstance(o, Adt) and o.vname == "Less"
+    return less
+
+
+@T.path("core::slice::sort_by_key", "slice::sort_by_key", "core::slice::sort_by_cached_key", "core::slice::sort_unstable_by_key")
+def _slice_sort_by_key(I, a, d):
+    s = _items_of(a[0])
+    f = a[1]
+    keys = {}
+
+    def key(x):
+        if id(x) not in keys:
+            keys[id(x)] = I.call_value(f, [Ref(ValLoc(x))])
+        return keys[id(x)]
+    _stable_sort(I, s, lambda x, y: key_less(I, key(x), key(y), "sort-key"))
+    return UNIT
+
+
+@T.path("core::slice::sort_by", "slice::sort_by", "core::slice::sort_unstable_by")
+def _slice_sort_by(I, a, d):
+    _stable_sort(I, _items_of(a[0]), _ordering_less(I, a[1]))
+    return UNIT
+
+
+@T.path("core::slice::sort", "slice::sort", "core::slice::sort_unstable")
+def _slice_sort(I, a, d):
+    _stable_sort(I, _items_of(a[0]), lambda x, y: key_less(I, x, y, "sort"))
+    return UNIT
+
+
+@T.path("core::slice::reverse", "slice::reverse")
+def _slice_reverse(I, a, d):
+    s = _items_of(a[0])
+    items = [s.items[s.start + i] for i in range(len(s))][::-1]
+    for i, x in enumerate(items):
+        s.items[s.start + i] = x
+    return UNIT
+
+
+@T.path("core::slice::contains", "slice::contains")
+def _slice_contains(I, a, d):
+    s = _items_of(a[0])
+    for i in range(len(s)):
+        if truthy(I, values_eq(I, s.at(i), a[1]), "contains"):
+            return True
+    return False
+
+
+@T.path("core::slice::iter_mut", "slice::iter_mut")
+def _slice_iter_mut(I, a, d):
+    s = _items_of(a[0])
+    return RIter.from_list([Ref(ElemLoc(s.items, s.start + i), True) for i in range(len(s))])
+
+
+@T.trait("DerefMut", "deref_mut", r"Vec$")
+def _vec_deref_mut(I, a, d):
+    v = peel(a[0])
+    if isinstance(v, VecObj):
+        return SliceRef(v.items)
+    if isinstance(v, BufObj):
+        return MutBytesRef(v, 0, v.sb.length())
+    raise Inconclusive("DerefMut on %r" % (v,))
+
+
+def _dedup(I, v, same):
+    v = peel(v)
+    if not isinstance(v, VecObj):
+        raise Inconclusive("dedup on %r" % (v,))
+    out = []
+    for x in v.items:
+        if out and same(x, out[-1]):
+            I.drop_value(x)
+            continue
+        out.append(x)
+    v.items[:] = out
+    return UNIT
+
+
+@T.path("std::vec::Vec::dedup_by", "alloc::vec::Vec::dedup_by")
+def _vec_dedup_by(I, a, d):
+    f = a[1]
+    return _dedup(I, a[0], lambda x, prev: truthy(I, I.call_value(f, [Ref(ValLoc(x), True), Ref(ValLoc(prev), True)]), "dedup_by"))
+
+
+@T.path("std::vec::Vec::dedup_by_key", "alloc::vec::Vec::dedup_by_key")
+def _vec_dedup_by_key(I, a, d):
+    f = a[1]
+    return _dedup(I, a[0], lambda x, prev: truthy(I, values_eq(I, I.call_value(f, [Ref(ValLoc(x), True)]), I.call_value(f, [Ref(ValLoc(prev), True)])), "dedup_by_key"))
+
+
+@T.path("std::vec::Vec::dedup", "alloc::vec::Vec::dedup")
+def _vec_dedup(I, a, d):
+    return _dedup(I, a[0], lambda x, prev: truthy(I, I.call_trait_method("PartialEq", "eq", [Ref(ValLoc(x)), Ref(ValLoc(prev))]), "dedup"))
+
+
+@T.path("std::vec::Vec::retain", "alloc::vec::Vec::retain")
+def _vec_retain(I, a, d):
+    v = peel(a[0])
+    f = a[1]
+    if not isinstance(v, VecObj):
+        raise Inconclusive("retain on %r" % (v,))
+    out = []
+    for x in v.items:
+        if truthy(I, I.call_value(f, [Ref(ValLoc(x))]), "retain"):
+            out.append(x)
+        else:
+            I.drop_value(x)
+    v.items[:] = out
+    return UNIT
+
+
+@T.path("std::vec::Vec::pop", "alloc::vec::Vec::pop")
+def _vec_pop(I, a, d):
+    v = peel(a[0])
+    if isinstance(v, VecObj):
+        return SOME(v.items.pop()) if v.items else NONE()
+    raise Inconclusive("Vec<u8>::pop")
+
+
+@T.path("std::vec::Vec::insert", "alloc::vec::Vec::insert")
+def _vec_insert(I, a, d):
+    v = peel(a[0])
+    if isinstance(v, VecObj) and isinstance(a[1], int):
+        if a[1] > len(v.items):
+            panic("insertion index out of bounds")
+        v.items.insert(a[1], a[2])
+        return UNIT
+    raise Inconclusive("Vec::insert")
+
+
+@T.path("std::vec::Vec::remove", "alloc::vec::Vec::remove", "std::vec::Vec::swap_remove")
+def _vec_remove(I, a, d):
+    v = peel(a[0])
+    if isinstance(v, VecObj) and isinstance(a[1], int):
+        if a[1] >= len(v.items):
+            panic("removal index out of bounds")
+        return v.items.pop(a[1])
+    raise Inconclusive("Vec::remove")
+
+
+@T.path("std::vec::Vec::iter", "alloc::vec::Vec::iter")
+def _vec_iter(I, a, d):
+    return _slice_iter(I, a, d)
+
+
+@T.path("std::vec::Vec::into_iter")
+def _vec_into_iter2(I, a, d):
+    return _into_iter(I, a, d)
+
+
+@T.path("std::vec::Vec::first", "std::vec::Vec::last")
+def _vec_first_last(I, a, d):
+    if d["segs"][-1] == "first":
+        return _slice_first(I, a, d)
+    return _slice_last(I, a, d)
+
+
+def _extreme(I, it, keyf, want_max, label):
+    best, bestk = None, None
+    while True:
+        v = it.next(I)
+        if v is RIter.STOP:
+            break
+        k = keyf(v)
+        if best is None:
+            best, bestk = v, k
+            continue
+        if want_max:
+            # max_by_key returns the LAST maximal element
+            if not key_less(I, k, bestk, label):
+                I.drop_value(best)
+                best, bestk = v, k
+            else:
+                I.drop_value(v)
+        else:
+            # min_by_key returns the FIRST minimal element
+            if key_less(I, k, bestk, label):
+                I.drop_value(best)
+                best, bestk = v, k
+            else:
+                I.drop_value(v)
+    return NONE() if best is None else SOME(best)
+
+
+@T.trait("Iterator", "max_by_key")
+def _it_max_by_key(I, a, d):
+    f = a[1]
+    return _extreme(I, _iter_of(a[0]), lambda v: I.call_value(f, [Ref(ValLoc(v))]), True, "max_by_key")
+
+
+@T.trait("Iterator", "min_by_key")
+def _it_min_by_key(I, a, d):
+    f = a[1]
+    return _extreme(I, _iter_of(a[0]), lambda v: I.call_value(f, [Ref(ValLoc(v))]), False, "min_by_key")
+
+
+@T.trait("Iterator", "max")
+def _it_max(I, a, d):
+    return _extreme(I, _iter_of(a[0]), lambda v: v, True, "max")
+
+
+@T.trait("Iterator", "min")
+def _it_min(I, a, d):
+    return _extreme(I, _iter_of(a[0]), lambda v: v, False, "min")
+
+
+@T.trait("Iterator", "max_by")
+def _it_max_by(I, a, d):
+    f = a[1]
+    it = _iter_of(a[0])
+    best = None
+    while True:
+        v = it.next(I)
+        if v is RIter.STOP:
+            break
+        if best is None:
+            best = v
+            continue
+        o = I.call_value(f, [Ref(ValLoc(best)), Ref(ValLoc(v))])
+        if o.vname != "Greater":
+            I.drop_value(best)
+            best = v
+        else:
+            I.drop_value(v)
+    return NONE() if best is None else SOME(best)
+
+
+@T.trait("Iterator", "find")
+def _it_find(I, a, d):
+    it, f = _iter_of(a[0]), a[1]
+    while True:
+        v = it.next(I)
+        if v is RIter.STOP:
+            return NONE()
+        if truthy(I, I.call_value(f, [Ref(ValLoc(v))]), "find"):
+            return SOME(v)
+        I.drop_value(v)
+
+
+@T.trait("Iterator", "find_map")
+def _it_find_map(I, a, d):
+    it, f = _iter_of(a[0]), a[1]
+    while True:
+        v = it.next(I)
+        if v is RIter.STOP:
+            return NONE()
+        r = I.call_value(f, [v])
+        if r.vname == "Some":
+            return r
+
+
+@T.trait("Iterator", "position")
+def _it_position(I, a, d):
+    it, f = _iter_of(a[0]), a[1]
+    i = 0
+    while True:
+        v = it.next(I)
+        if v is RIter.STOP:
+            return NONE()
+        if truthy(I, I.call_value(f, [v]), "position"):
+            return SOME(i)
+        i += 1
+
+
+@T.trait("Iterator", "any")
+def _it_any(I, a, d):
+    it, f = _iter_of(a[0]), a[1]
+    while True:
+        v = it.next(I)
+        if v is RIter.STOP:
+            return False
+        if truthy(I, I.call_value(f, [v]), "any"):
+            return True
+
+
+@T.trait("Iterator", "all")
+def _it_all(I, a, d):
+    it, f = _iter_of(a[0]), a[1]
+    while True:
+        v = it.next(I)
+        if v is RIter.STOP:
+            return True
+        if not truthy(I, I.call_value(f, [v]), "all"):
+            return False
+
+
+@T.trait("Iterator", "nth")
+def _it_nth(I, a, d):
+    it, n = _iter_of(a[0]), a[1]
+    for _ in range(n):
+        v = it.next(I)
+        if v is RIter.STOP:
+            return NONE()
+        I.drop_value(v)
+    v = it.next(I)
+    return NONE() if v is RIter.STOP else SOME(v)
+
+
+@T.trait("Iterator", "peekable")
+def _it_peekable(I, a, d):
+    raise Inconclusive("Iterator::peekable")
+
+
+@T.trait("DoubleEndedIterator", "next_back")
+def _it_next_back(I, a, d):
+    it = _iter_of(a[0])
+    if it._back is None:
+        raise Inconclusive("next_back on single-ended iterator")
+    v = it._back(I)
+    return NONE() if v is RIter.STOP else SOME(v)
+
+
+@T.trait("Ord", "cmp")
+def _ord_cmp(I, a, d):
+    x, y = a
+    if key_less(I, x, y, "cmp-lt"):
+        return Adt("Ordering", 0, "Less")
+    if key_less(I, y, x, "cmp-gt"):
+        return Adt("Ordering", 2, "Greater")
+    return Adt("Ordering", 1, "Equal")
+
+
+@T.trait("PartialOrd", "partial_cmp")
+def _partial_cmp(I, a, d):
+    return SOME(_ord_cmp(I, a, d))
+
+
+@T.path("std::cmp::Ordering::reverse", "core::cmp::Ordering::reverse")
+def _ordering_reverse(I, a, d):
+    o = peel(a[0])
+    return {"Less": Adt("Ordering", 2, "Greater"), "Greater": Adt("Ordering", 0, "Less"), "Equal": o}[o.vname]
+
+
+@T.path("std::cmp::Ordering::then", "std::cmp::Ordering::then_with")
+def _ordering_then(I, a, d):
+    o = peel(a[0])
+    if o.vname != "Equal":
+        return o
+    if d["segs"][-1] == "then":
+        return a[1]
+    return I.call_value(a[1], [])
+
+
+# HashMap / BTreeMap keyed by model values (keys compared through their PartialEq)
+class MapObj:
+    rust_type = "Map"
+
+    def __init__(self, ordered=False):
+        self.items = []     # [key, value]
+        self.ordered = ordered
+
+    def find(self, I, k):
+        for ent in self.items:
+            if truthy(I, values_eq(I, ent[0], k), "map-key-eq"):
+                return ent
+        return None
+
+
+@T.path("std::collections::HashMap::new", "std::collections::BTreeMap::new", "std::collections::HashMap::with_capacity")
+def _map_new(I, a, d):
+    return MapObj("BTreeMap" in d.get("raw", ""))
+
+
+@T.path("std::collections::HashMap::insert", "std::collections::BTreeMap::insert")
+def _map_insert(I, a, d):
+    m = peel(a[0])
+    ent = m.find(I, a[1])
+    if ent is not None:
+        old = ent[1]
+        ent[1] = a[2]
+        I.drop_value(a[1])
+        return SOME(old)
+    m.items.append([a[1], a[2]])
+    return NONE()
+
+
+@T.path("std::collections::HashMap::get", "std::collections::BTreeMap::get")
+def _map_get(I, a, d):
+    m = peel(a[0])
+    ent = m.find(I, a[1])
+    return SOME(Ref(ElemLoc(ent, 1))) if ent is not None else NONE()
+
+
+@T.path("std::collections::HashMap::remove", "std::collections::BTreeMap::remove")
+def _map_remove(I, a, d):
+    m = peel(a[0])
+    ent = m.find(I, a[1])
+    if ent is None:
+        return NONE()
+    m.items.remove(ent)
+    return SOME(ent[1])
+
+
+@T.path("std::collections::HashMap::contains_key", "std::collections::BTreeMap::contains_key")
+def _map_contains_key(I, a, d):
+    return peel(a[0]).find(I, a[1]) is not None
+
+
+@T.path("std::collections::HashMap::into_values", "std::collections::BTreeMap::into_values", "std::collections::HashMap::values", "std::collections::BTreeMap::values")
+def _map_values(I, a, d):
+    m = peel(a[0])
+    vals = [e[1] for e in m.items]
+    if not m.ordered and len(vals) > 1 and I.w.choose(2, "hashmap-order") == 1:
+        vals.reverse()
+    if d["segs"][-1] == "values":
+        return RIter.from_list([Ref(ValLoc(v)) for v in vals])
+    return RIter.from_list(vals)
+
+
+@T.path("std::collections::HashSet::new")
+def _hashset_new(I, a, d):
+    return HashSetObj()
+
+
+@T.path("std::collections::HashSet::insert")
+def _hashset_insert(I, a, d):
+    return peel(a[0]).insert(I, a[1])
+
+
+@T.path("std::collections::HashSet::contains")
+def _hashset_contains(I, a, d):
+    hs = peel(a[0])
+    for x in hs.items:
+        if truthy(I, I.call_trait_method("PartialEq", "eq", [Ref(ValLoc(x)), a[1]]), "hashset-contains"):
+            return True
+    return False
